@@ -320,7 +320,7 @@ func (schema *Schema) buildMany2ManyRelation(relation *Relationship, field *Fiel
 			PkgPath: ownField.StructField.PkgPath,
 			Type:    ownField.StructField.Type,
 			Tag: removeSettingFromTag(appendSettingFromTag(ownField.StructField.Tag, "primaryKey"),
-				"column", "autoincrement", "index", "unique", "uniqueindex"),
+				"column", "autoincrement", "index", "unique", "uniqueindex", "check"),
 		})
 	}
 
@@ -348,7 +348,7 @@ func (schema *Schema) buildMany2ManyRelation(relation *Relationship, field *Fiel
 				PkgPath: relField.StructField.PkgPath,
 				Type:    relField.StructField.Type,
 				Tag: removeSettingFromTag(appendSettingFromTag(relField.StructField.Tag, "primaryKey"),
-					"column", "autoincrement", "index", "unique", "uniqueindex"),
+					"column", "autoincrement", "index", "unique", "uniqueindex", "check"),
 			})
 		}
 	}
